@@ -6,7 +6,7 @@ cd "$(dirname "$0")"
 export GOFLAGS=-mod=mod GOPROXY=off GOSUMDB=off GOTOOLCHAIN=local
 mkdir -p go/.build evidence replays
 tools/gen.sh "${VERIF_REPO:-/repo}"
-( cd lean && lake build oracle )
+( cd lean && lake build $(sed -n 's/^name = "\(oracle_C[0-9]*\)"/\1/p' lakefile.toml) ) || echo "setup: warning: some oracle executables did not build (each check rebuilds its own)"
 # everything else is rebuilt by the checks themselves; a proof that depends on facts
 # regenerated from the tree must not make the setup fail
 ( cd lean && lake build Golib ) || echo "setup: warning: some Lean modules did not build (each check reports its own obligations)"
